@@ -351,14 +351,16 @@ func treeLattices(tier string) []treeLattice {
 	innerTDim := "deserved{0,1,2,-1} x limit{-1,1,3} x weight{0,1} x priority{0}"
 	leafU := tuplesOf([]float64{0, 1}, []float64{-1, 1}, fullWt, fullPrio, []float64{.5, 5}, fullUse)
 	leafUDim := "deserved{0,1} x limit{-1,1} x weight{0,1,2} x priority{0,1} x request{.5,5} x usage{0,.5}"
-	inner2 := tuplesOf([]float64{0, 1, -1}, []float64{-1, 3}, []float64{1, 2}, fullPrio, []float64{0}, []float64{0})
-	inner2Dim := "deserved{0,1,-1} x limit{-1,3} x weight{1,2} x priority{0,1}"
+	inner2 := tuplesOf([]float64{0, 1, -1}, []float64{-1}, []float64{1, 2}, fullPrio, []float64{0}, []float64{0})
+	inner2Dim := "deserved{0,1,-1} x limit{-1} x weight{1,2} x priority{0,1}"
+	leaf2 := tuplesOf([]float64{0, 1}, []float64{-1}, []float64{1, 2}, fullPrio, []float64{.5, 5}, []float64{0})
+	leaf2Dim := "deserved{0,1} x limit{-1} x weight{1,2} x priority{0,1} x request{.5,5} x usage{0}"
 	leafS := tuplesOf([]float64{0, 1}, []float64{-1, 1}, []float64{1, 2}, fullPrio, []float64{.5, 5}, []float64{0})
 	leafSDim := "deserved{0,1} x limit{-1,1} x weight{1,2} x priority{0,1} x request{.5,5} x usage{0}"
 	return []treeLattice{
 		{Name: "h-1-2", Shape: "1-2", Totals: fullTotals, Ks: []float64{0}, Inner: innerT, Leaf: leafT, InnerDim: innerTDim, LeafDim: leafTDim, Orders: hordersFull},
 		{Name: "h-1-2-tbf", Shape: "1-2", Totals: tot, Ks: []float64{1, 2}, Inner: innerQ, Leaf: leafU, InnerDim: innerDim, LeafDim: leafUDim, Orders: hordersFull},
-		{Name: "h-2-21", Shape: "2-21", Totals: tot, Ks: []float64{0}, Inner: inner2, Leaf: leafS, InnerDim: inner2Dim, LeafDim: leafSDim, Orders: hordersFull},
+		{Name: "h-2-21", Shape: "2-21", Totals: []float64{1, 4, 7}, Ks: []float64{0}, Inner: inner2, Leaf: leaf2, InnerDim: inner2Dim, LeafDim: leaf2Dim, Orders: hordersFull},
 		{Name: "h-1-1-2", Shape: "1-1-2", Totals: tot, Ks: []float64{0}, Inner: innerQ, Leaf: leafQ, InnerDim: innerDim, LeafDim: leafDim, Orders: hordersFull},
 		{Name: "h-1-3", Shape: "1-3", Totals: []float64{1, 3, 4, 7}, Ks: []float64{0}, Inner: innerQ, Leaf: leafS, InnerDim: innerDim, LeafDim: leafSDim, Orders: hordersFull},
 	}
